@@ -53,9 +53,11 @@ type Program struct {
 	GOARCH  string
 	GOOS    string
 
-	NewFuncs  map[*types.Func]bool          // unexported library functions that are not in knownFuncs (a_alias.go)
-	Alias     map[types.Object]types.Object // local / parameter aliases (a_alias.go)
-	AliasExpr map[types.Object]ast.Expr     // named local -> the expression it names
+	NewFuncs     map[*types.Func]bool          // unexported library functions that are not in knownFuncs (a_alias.go)
+	Alias        map[types.Object]types.Object // local / parameter aliases (a_alias.go)
+	AliasExpr    map[types.Object]ast.Expr     // named local -> the expression it names
+	RenamedFunc  map[string]string             // listed function that is gone -> its unique replacement (a_alias.go)
+	RenamedField map[string]*types.Var         // "pkg.Type.field" that is gone -> its unique replacement
 }
 
 func shortPkg(path string) string {
@@ -222,7 +224,15 @@ func FuncName(f *types.Func) string {
 }
 
 // Func returns the function with the qualified name, or nil.
-func (p *Program) Func(name string) *FuncInfo { return p.Funcs[name] }
+func (p *Program) Func(name string) *FuncInfo {
+	if fi := p.Funcs[name]; fi != nil {
+		return fi
+	}
+	if n, ok := p.RenamedFunc[name]; ok {
+		return p.Funcs[n]
+	}
+	return nil
+}
 
 // Pos renders a position relative to the repo root.
 func (p *Program) Pos(pos token.Pos) string {
@@ -266,7 +276,7 @@ func (p *Program) Field(pkg, typ, field string) *types.Var {
 			return st.Field(i)
 		}
 	}
-	return nil
+	return p.RenamedField[pkg+"."+typ+"."+field]
 }
 
 // Method returns a declared method (pointer or value receiver) or interface method.
@@ -286,6 +296,13 @@ func (p *Program) Method(pkg, typ, name string) *types.Func {
 	for i := 0; i < n.NumMethods(); i++ {
 		if n.Method(i).Name() == name {
 			return n.Method(i)
+		}
+	}
+	for _, old := range []string{pkg + ".(*" + typ + ")." + name, pkg + ".(" + typ + ")." + name} {
+		if nn, ok := p.RenamedFunc[old]; ok {
+			if fi := p.Funcs[nn]; fi != nil {
+				return fi.Obj
+			}
 		}
 	}
 	return nil
